@@ -560,7 +560,10 @@ def _error_rules(ck: Checker) -> None:
     if assigned and hook:
         v = assigned[0].value
         coll = {norm(c.func.value) for f in hook for c, _ in res.calls_in(f) if is_method_call(c, "add", "append")}
-        okd = isinstance(v, ast.Name) and v.id in coll and is_accumulator(cp, v.id)
+        from ..prov import alias_names as _al
+
+        names_v = _al(cp, v.id) if isinstance(v, ast.Name) else set()
+        okd = isinstance(v, ast.Name) and bool(names_v & coll) and any(is_accumulator(cp, nm_) for nm_ in names_v)
         why = f"ret.dirs_failed = {norm(v)}; the hook collects into {sorted(coll)}"
     ck.require(okd, "C09.errors", cp, assigned[0] if assigned else cp.node,
                "dirs_failed is the complete set of directories whose load failed (as collected by the error hook)",
